@@ -275,24 +275,64 @@ def run(prop, argv=None) -> int:
     handled = 0
     # 1. spec failures (oracle false on the implementation's own behaviour)
     seen_shrunk = set()
-    for idx, ag, ok, ex in spec_fail[:25]:
-        c, o, ag2, ok2, ex2 = shrink(cases[idx], lambda ag_, ok_, ex_: not ok_)
+
+    def is_known(ex_):
+        return [x for x in ex_ if x in open_findings]
+
+    def report_known(hit):
+        for x in hit:
+            if x not in reported_known:
+                reported_known.add(x)
+                known_lines.append(f"KNOWN-FINDING: property={pid} F{x:02d} {open_findings[x]}")
+
+    def hidden_violation(case):
+        """a failing case that contains a recorded situation: look (two rounds of reductions) for a failing
+        reduction that contains none - a different violation hiding behind the known one"""
+        frontier = [case]
+        for _ in range(2):
+            cands = []
+            for c_ in frontier:
+                cands += list(prop.shrink(c_))[:60]
+            if not cands:
+                return None
+            ev = evaluate(cands[:150])
+            clean = [e for e in ev if not e[3] and not is_known(e[4])]
+            if clean:
+                return clean[0][0]
+            frontier = [e[0] for e in ev if not e[3]][:3]
+            if not frontier:
+                return None
+        return None
+
+    spec_fail_sorted = sorted(spec_fail, key=lambda f: len(json.dumps(cases[f[0]])))
+    deep = 0
+    for idx, ag, ok, ex in spec_fail_sorted:
+        if violations:
+            break
+        if is_known(ex):
+            if deep < 6:
+                deep += 1
+                hv = hidden_violation(cases[idx])
+                if hv is None:
+                    report_known(is_known(ex))
+                    continue
+                start = hv
+            else:
+                report_known(is_known(ex))
+                continue
+        else:
+            start = cases[idx]
+        c, o, ag2, ok2, ex2 = shrink(start, lambda ag_, ok_, ex_: not ok_)
         key = json.dumps(c, sort_keys=True)
         if key in seen_shrunk:
             continue
         seen_shrunk.add(key)
-        hit = [x for x in ex2 if x in open_findings]
+        hit = is_known(ex2)
         if hit:
-            for x in hit:
-                if x not in reported_known:
-                    reported_known.add(x)
-                    known_lines.append(f"KNOWN-FINDING: property={pid} F{x:02d} {open_findings[x]}")
+            report_known(hit)
             continue
         path = write_replay("violation", c, o, ag2, ok2, ex2, "the implementation's observed behaviour fails the property oracle on this case")
         violations.append(f"VIOLATION property={pid} replay={path}")
-        handled += 1
-        if handled >= 1:
-            break
     # 2. correspondence broken but the oracle holds everywhere explored
     if not violations and disagreements:
         # neighbourhood search for a failing input around the smallest disagreeing cases
